@@ -226,16 +226,33 @@ type FuncResult struct {
 	Outside     string // non-empty: function is outside the supported subset (reason)
 	Blocks      int
 	Instrs      int
+	heapOrder   []string
+	heapSort    map[string]string
 }
 
 // Generate produces the obligations of one function under contract.
 func (g *Gen) Generate(fn *ssa.Function, con *Contract) (res *FuncResult) {
+	// pass 1 collects the heap names the function touches, pass 2 runs with
+	// all of them declared up front so that state merges are precise
+	first := g.generate1(fn, con, nil, nil)
+	if first.Outside != "" {
+		return first
+	}
+	return g.generate1(fn, con, first.heapOrder, first.heapSort)
+}
+
+func (g *Gen) generate1(fn *ssa.Function, con *Contract, heapOrder []string, heapSort map[string]string) (res *FuncResult) {
 	res = &FuncResult{Func: g.fnName(fn), Contract: con}
 	fc := &fnCtx{g: g, fn: fn, con: con, sc: NewScript(), heapSort: map[string]string{}, vals: map[ssa.Value]Val{},
 		ordinals: map[string]int{}, globals: map[string]string{}, implSyms: map[string]types.Type{}, pureDone: map[string]bool{},
 		globalVals: map[*ssa.Global]Val{}, globalSyms: map[string]*ssa.Global{}}
 	fc.sc.Raw(prelude, preludeSyms...)
 	fc.so = newSorter(fc.sc)
+	for _, h := range heapOrder {
+		fc.heapOrder = append(fc.heapOrder, h)
+		fc.heapSort[h] = heapSort[h]
+	}
+	fc.preHeaps = len(heapOrder) > 0
 	if con != nil {
 		fc.propsAll = con.Props
 	}
@@ -245,6 +262,7 @@ func (g *Gen) Generate(fn *ssa.Function, con *Contract) (res *FuncResult) {
 	}
 	defer func() {
 		res.Notes = fc.notes
+		res.heapOrder, res.heapSort = fc.heapOrder, fc.heapSort
 		if e := recover(); e != nil {
 			switch e := e.(type) {
 			case unsupported:
